@@ -51,7 +51,12 @@ def vec_norm(an, t):
                 hit = base
                 for c in sub[1:]:
                     pass
-                new = _upd_inner(an, base, sub[1:], v[3])
+                if len(sub) == 2 and sub[1][0] == 'f':
+                    new = ('updf', base, sub[1][1], v[3])
+                elif len(sub) == 1:
+                    new = v[3]
+                else:
+                    return ('elem', v, j)
                 if k == j:
                     return new
                 return mk('gamma', mk('eq', j, k), new, base)
@@ -81,6 +86,8 @@ def vec_norm(an, t):
                     return fv
         if op == 'pre':
             return ('pre', v[1] + (c,))
+        if op == 'updf' and c[0] == 'f':
+            return v[3] if v[2] == c[1] else proj(v[1], c)
         return ('proj', v, c)
 
     def f(x):
@@ -345,6 +352,55 @@ def site_rules(ctx, prop, direction):
             oblige(ctx, R, an, seen, key, direction, NV, want, facts, w, 'the left neighbour\'s speed, which then covers the restriction, is %s min_speed(old speed, restriction)' % word)
         else:
             ctx.unproved(R, s.kind, 'unclassified store into the profile vector: %s' % s.kind, w)
+
+
+def empty_restriction_rule(ctx):
+    """C13-4.empty: a restriction of zero length (offset_start == offset_end, admitted by validation) covers no position,
+    so it must not change the profile: every mutation site is either unreachable for it or leaves the value in force
+    on its interval unchanged"""
+    R = 'C13-4.empty'
+    b, an = analysis(ctx)
+    if b is None or an is None or an.exit_state is None:
+        ctx.unproved(R, 'insert_speed', 'InsertSpeed::insert_speed not found / not analysable'); return
+    S = sites(ctx, b, an)
+    st, en = SL('offset_start'), SL('offset_end')
+    excl = {(mk('ne', st, en), True), (mk('eq', st, en), False), (mk('lt', st, en), True), (mk('gt', en, st), True),
+            (mk('ne', en, st), True), (mk('eq', en, st), False)}
+    seen = {}
+    for s in S:
+        w = ctx.where(b, s.span)
+        key = '%s @%s' % (s.kind, _site_name(an, s))
+        n = seen.get(key, 0); seen[key] = n + 1
+        if n:
+            key = '%s #%d' % (key, n + 1)
+        if any((c, o != '0') in excl for c, o in s.pc or ()):
+            ctx.ok(R, key, 'not reached by a zero-length restriction (guarded by offset_start != offset_end)', w); continue
+        facts = facts_of(an, s.pc) + [mk('eq', st, en)]
+        cur = s.cur
+        if s.kind in ('push', 'insert'):
+            f = fields(s.point)
+            k_prev = mk('sub', ('len', cur), ONE) if s.kind == 'push' else mk('sub', s.k, ONE)
+            NV, OV = f.get('speed_limit'), elem_speed(an, cur, k_prev)
+        elif s.kind == 'remove':
+            NV, OV = elem_speed(an, cur, mk('sub', s.k, ONE)), elem_speed(an, cur, s.k)
+        elif s.kind == 'store_speed_limit':
+            NV, OV = s.val, elem_speed(an, cur, s.k)
+        else:
+            NV, OV = elem_speed(an, cur, mk('sub', s.k, ONE)), elem_speed(an, cur, s.k)
+        v, d = relation(ctx, an, 'eq', NV, OV, facts)
+        note = 'a zero-length restriction reaches this statement: the value it leaves in force must be the value that was in force'
+        if v == 'PROVED':
+            ctx.ok(R, key, note + ' :: ' + d[:120], w)
+        else:
+            (ctx.bad if v == 'DISPROVED' else ctx.unproved)(R, key, '%s :: %s ≡ %s :: %s' % (note, show(assume_nonneg(vec_norm(an, NV)), an.names)[:160],
+                                                                                      show(assume_nonneg(vec_norm(an, OV)), an.names)[:120], d[:200]), w)
+
+
+def _site_name(an, s):
+    if s.kind in ('push', 'insert'):
+        o = fields(s.point).get('offset')
+        return 'offset_start' if o == SL('offset_start') else ('offset_end' if o == SL('offset_end') else '?')
+    return _idx_name(an, s.k)
 
 
 def elem_offset_raw(vec, k):
